@@ -168,7 +168,7 @@ CLAIMS = {
              "two top entries by first-pushed + glyph + second-pushed with the glyph the property names; negate, percent, empty; string "
              "literals with every quote doubled; booleans TRUE/FALSE; lists and function calls name(args in pushed order) for arities "
              "0..4 (bounded arity, any stack below); no IndexError for a stack of sufficient depth; the dispatch table wires each node "
-             "type to the method proved for its glyph (complete syntactic check). 'The text, read with conventional precedence, is the "
+             "type to the method proved for its glyph (complete syntactic check); every memoised method of the package keys its cache on all of its parameters (complete syntactic check, so rendering a formula for one cell cannot return another cell's text). 'The text, read with conventional precedence, is the "
              "stored tree' and number/date/reference literals: bounded stand-in with an independent precedence parser over generated "
              "trees - it reports one open known finding (number literals >= 1e16), so the level is not 'proof'.",
         note="Assumes: ghost view of the stack list, popn/push/pop inlined, z3 str.replace_all for str.replace, model.table_name opaque. "
@@ -298,7 +298,9 @@ CLAIMS = {
         text="Mostly bounded. Proved (contract-based, real cell.py): _format_currency only decorates the number text (symbol, tab, parentheses without "
              "the minus sign; every digit kept) for every text, code, flag and sign; _format_fraction_parts_to for all integers (carry of a "
              "fraction equal to one, never n/n); _format_base in minus-sign mode for every value and every base 2..36: the digits the loop produces are the "
-             "base-b expansion of |round(value)| (nonlinear loop invariant with an induction lemma, termination proved), sign by '-'. The numeric relation (display read back == value rounded to the displayed precision; decimals "
+             "base-b expansion of |round(value)| (nonlinear loop invariant with an induction lemma, termination proved), sign by '-'; _format_decimal "
+             "with fixed decimals and no grouping (dataflow contract over the two third-party rounding calls, uninterpreted): the digits are "
+             "sigfig(sigfig(x, 15 significant digits), decimals=places), then '%', then parentheses - nothing else touches a digit. The numeric relation (display read back == value rounded to the displayed precision; decimals "
              "shown == decimals asked for; separators/negative styles/padding decorate only) for decimal, percentage, currency, scientific, base "
              "and fraction formats is decided by a bounded stand-in with an independent decimal/fraction/base reader: no contract within reach "
              "can express it, because the digits come from the third-party sigfig package, float '%E' formatting, Fraction.limit_denominator and "
